@@ -1,6 +1,7 @@
 package rules
 
 import (
+	"sort"
 	"fmt"
 	"go/token"
 	"go/types"
@@ -31,6 +32,9 @@ func runC02(c *engine.Ctx) {
 	r1 := c.Rule("R1", "remote bytes are delivered only after the committer succeeded", 1)
 	r2 := c.Rule("R2", "local fallback on remote-nil, on an unfollowed remote path, and when offline", 1)
 	r3 := c.Rule("R3", "local failures become RemoteMissingBlockErr{requested link}; executor reports and skips; responder skips and sends metadata only", 2)
+
+	r5 := c.Rule("R5", "the 'still under a branch the responder did not follow' test is: a branch is recorded and the new path is strictly deeper (all length orderings)", 1)
+	c02PathTracker(c, r5)
 
 	// R1 via the C01.R4 walk
 	c.Rule("R4aux", "(auxiliary) verify-before-write instances evaluated while deriving R1", 0)
@@ -319,4 +323,80 @@ func runC02(c *engine.Ctx) {
 			}
 		}
 	}
+}
+
+// c02PathTracker (R5): whether the next link is looked for in the responder's stream or only locally is decided by
+// pathTracker.stillOnUnfollowedRemotePath.  Selector traversal is depth-first, so "still under the branch the
+// responder skipped" is exactly "deeper than the recorded path"; the function is evaluated in the finite domain
+// with the two path lengths as inputs, and must be that function of them (anything computed from other sources —
+// string forms, segment text — is unknown to the evaluator and so is refused).
+func c02PathTracker(c *engine.Ctx, rule string) {
+	rl := "requestmanager/reconciledloader"
+	f := c.P.Func(rl, "pathTracker", "stillOnUnfollowedRemotePath")
+	lastF := c.P.Field(rl, "pathTracker", "lastUnfollowedRemotePath")
+	if f == nil || lastF == nil || len(f.Params) < 2 {
+		c.AnchorMissing(rule, "reconciledloader.pathTracker.stillOnUnfollowedRemotePath / lastUnfollowedRemotePath")
+		return
+	}
+	c.Analysed(engine.FuncName(f))
+	newP := f.Params[1]
+	lenOf := func(v ssa.Value) string { // "last" / "new" when v is <path>.Len()
+		cc, ok := v.(*ssa.Call)
+		if !ok {
+			return ""
+		}
+		sc := cc.Call.StaticCallee()
+		if sc == nil || sc.Name() != "Len" || len(cc.Call.Args) != 1 {
+			return ""
+		}
+		recv := engine.LocalValue(cc.Call.Args[0])
+		if fl, _ := engine.LoadedField(recv); fl == lastF {
+			return "last"
+		}
+		if engine.Strip(recv) == ssa.Value(newP) {
+			return "new"
+		}
+		return ""
+	}
+	bad := ""
+	n := 0
+	for last := int64(0); last <= 2 && bad == ""; last++ {
+		for nw := int64(0); nw <= 3 && bad == ""; nw++ {
+			results := map[string]bool{}
+			ev := &engine.Evaluator{MaxVisits: 2}
+			ev.Input = func(v ssa.Value) (engine.EVal, bool) {
+				switch lenOf(v) {
+				case "last":
+					return engine.EVal{K: engine.EInt, I: last}, true
+				case "new":
+					return engine.EVal{K: engine.EInt, I: nw}, true
+				}
+				return engine.EVal{}, false
+			}
+			ev.Observe = func(in ssa.Instruction, get func(ssa.Value) engine.EVal) {
+				if r, ok := in.(*ssa.Return); ok && len(r.Results) == 1 {
+					v := get(r.Results[0])
+					if v.K == engine.EBool {
+						results[fmt.Sprint(v.B)] = true
+					} else {
+						results["unknown"] = true
+					}
+				}
+			}
+			ev.Run(f)
+			n++
+			want := fmt.Sprint(last != 0 && nw > last)
+			if ev.Aborted || len(results) != 1 || !results[want] {
+				var got []string
+				for k := range results {
+					got = append(got, k)
+				}
+				sort.Strings(got)
+				bad = fmt.Sprintf("with a recorded path of length %d and a new path of length %d the test yields %v, expected %s (it must be: a branch is recorded and the new path is strictly deeper)", last, nw, got, want)
+			}
+		}
+	}
+	c.Decide(rule, engine.FuncName(f), f.Pos(), bad == "",
+		fmt.Sprintf("over %d length pairs the test is exactly: recorded path non-empty and new path strictly deeper", n),
+		"the test that keeps the requestor off the responder's stream while under a skipped branch is not a function of path depth alone: "+bad+" — siblings of the skipped branch can be mistaken for its descendants (their blocks are then never taken from the responder)")
 }
